@@ -93,3 +93,12 @@ Theorem C15_own_dumps_load_with_safe_to_import : forall (a : safe_arg) (d : pv),
   load (with_allow (effective_allow a) default_world) (enc_prog d) = Some d.
 Proof. exact own_dumps_load_any_safe. Qed.
 Print Assumptions C15_own_dumps_load_with_safe_to_import.
+
+(* the same for every encoding in the class [accepts] (what CPython's pickler emits
+   for payloads without a shared mutable sub-object) *)
+From DD Require Import Pickle.Encodes Pickle.EncodesProofs.
+Theorem C15_accepted_dumps_load : forall (a : safe_arg) (prog : list op) (d : pv),
+  wfp d = true -> types_default_b d = true -> accepts prog d = true ->
+  load (with_allow (effective_allow a) default_world) prog = Some d.
+Proof. exact accepted_dumps_load. Qed.
+Print Assumptions C15_accepted_dumps_load.
